@@ -45,6 +45,8 @@ def unit_sit(twin=False):
         U.discharge_eq_real(r, "sums.OSUM+=m_i", list(s.pc), local(info, s, "OSUM"), tm.sym("iter_OSUM", "R") + M)
         U.discharge_eq_real(r, "sums.XI+=m_i*z_i^2", list(s.pc), local(info, s, "XI"), tm.sym("iter_XI", "R") + M * z * z)
     r.add("reach.sums", DISCHARGED if n else UNDECIDED, "symex", 0, "%d" % n, kind="vacuity")
+    for acc in ("OSUM", "XI"):
+        check_accumulator_init(r, fn, SIT, loop_node(fn, role["sums"][0]), acc, "sums")
     # Debye-Hueckel term and the DH part of the osmotic function
     sts = [find_stmt(fn, SIT, t, prefix=True, kinds=("BinaryOperator",)) for t in ("DI =", "AGAMMA =", "A =", "B =", "F =", "T =", "OSMOT =")]
     f, ex, fin, info = region(SIT, Q, sts, ctx())
